@@ -6,6 +6,7 @@
   until it closes that link is checked by the Impl-vs-Spec oracle on the streams.
 -/
 import Resolved.Spec.CacheSpec
+import Resolved.Proofs.CacheHistory
 
 namespace Resolved
 
@@ -47,5 +48,198 @@ theorem toRRs_expired_ttl_zero (name : Name) (now : Nat) (ts : Tuples) (h : ∀ 
 theorem C05_ttl0_not_stored (c : PCache) (rr : RR) (now : Nat) (h : rr.ttl = 0) :
     sharedInsert c rr now = c := by
   unfold sharedInsert; simp [h]
+
+/-! ## Insertion (re)starts the lifetime, without duplicating
+
+`tuplesAt c k rk` is the tuple list filed under name `k`, record type `rk` (empty if none);
+`storedExpiry c name rtype fields` is the expiry stored for the key `(name, rtype, fields)`. -/
+
+/-- After `upsert k rk v ttl now` the list under `(k, rk)` holds `v` exactly once, with expiry
+    `now + ttl` (whatever expiry `v` had before is gone); every other tuple of that list, and every
+    other list of the cache, is unchanged. -/
+theorem C05_upsert_expiry (c : PCache) (k : Name) (rk : Nat) (v : CRec) (ttl now : Nat)
+    (h : Inv c) (hrt : v.rtype = rk) :
+    (∀ e, (v, e) ∈ tuplesAt (c.upsert k rk v ttl now) k rk ↔ e = now + ttl) ∧
+    ((tuplesAt (c.upsert k rk v ttl now) k rk).map (·.1)).Nodup ∧
+    (∀ w e, w ≠ v → ((w, e) ∈ tuplesAt (c.upsert k rk v ttl now) k rk ↔ (w, e) ∈ tuplesAt c k rk)) ∧
+    (∀ k' rk', (k' ≠ k ∨ rk' ≠ rk) → tuplesAt (c.upsert k rk v ttl now) k' rk' = tuplesAt c k' rk') := by
+  refine ⟨?_, (h.upsert k ttl now hrt).tuplesAt_nodup k rk, ?_, ?_⟩
+  · intro e
+    rw [mem_tuplesAt_upsert h k ttl now]
+    simp
+  · intro w e hw
+    rw [mem_tuplesAt_upsert h k ttl now]
+    simp [hw]
+  · intro k' rk' hne
+    exact tuplesAt_upsert_other h k ttl now k' rk' hne
+
+/-- The same in terms of keys: an insertion sets the stored expiry of its own key to
+    `now + ttl` and leaves every other key's stored expiry alone. -/
+theorem C05_upsert_storedExpiry (c : PCache) (k : Name) (rk : Nat) (v : CRec) (ttl now : Nat)
+    (h : Inv c) (hrt : v.rtype = rk) (k' : Name) (rt : Nat) (fs : List FieldVal) :
+    storedExpiry (c.upsert k rk v ttl now) k' rt fs =
+      if k' = k ∧ (⟨rt, fs⟩ : CRec) = v then some (now + ttl) else storedExpiry c k' rt fs :=
+  storedExpiry_upsert h k ttl now hrt k' rt fs
+
+/-- … and for `Cache::insert`: the record's key expires `ttl` seconds after this insertion. -/
+theorem C05_insert_storedExpiry (c : PCache) (rr : RR) (now : Nat) (h : Inv c)
+    (k' : Name) (rt : Nat) (fs : List FieldVal) :
+    storedExpiry (cacheInsert c rr now) k' rt fs =
+      if k' = rr.name ∧ rt = rr.rtype ∧ fs = rr.fields then some (now + rr.ttl * NANOS)
+      else storedExpiry c k' rt fs := by
+  unfold cacheInsert
+  rw [storedExpiry_upsert h rr.name (rk := rr.rtype) (v := ⟨rr.rtype, rr.fields⟩) (rr.ttl * NANOS) now rfl]
+  simp only [CRec.mk.injEq]
+
+/-! ## Serving -/
+
+/-- C05, safety: every record `get` returns is stored, its stored expiry is strictly in the
+    future, the TTL it reports is at least one second and no more than the time left, and it
+    answers the question asked. -/
+theorem C05_never_stale (c : PCache) (name : Name) (qtype now : Nat) (h : Inv c) :
+    ∀ rr ∈ (cacheGet c name qtype now).2,
+      ∃ e, storedExpiry c name rr.rtype rr.fields = some e ∧ now < e ∧ 1 ≤ rr.ttl ∧
+        rr.ttl * NANOS ≤ e - now ∧ rr.name = name ∧ rtypeMatches rr.rtype qtype = true := by
+  intro rr hrr
+  obtain ⟨hu, hpos⟩ := (mem_cacheGet_iff name qtype now rr).mp hrr
+  obtain ⟨rk, hm, hr⟩ := (mem_cacheGetUnchecked_iff h name qtype now rr).mp hu
+  obtain ⟨t, ht, hrt, hfs, hname, hle⟩ := toRRs_ttl_le name now _ rr hr
+  have hrk : t.1.rtype = rk := h.tuplesAt_rtype name rk t ht
+  have hst : storedExpiry c name rr.rtype rr.fields = some t.2 := by
+    rw [storedExpiry_eq, hrt, hfs, hrk]
+    apply lookupTuple_of_mem (h.tuplesAt_nodup name rk)
+    have : ((⟨rk, t.1.fields⟩ : CRec), t.2) = t := by
+      obtain ⟨⟨a, b⟩, e⟩ := t; simp only at hrk; subst hrk; rfl
+    rw [this]; exact ht
+  refine ⟨t.2, hst, ?_, hpos, hle, hname, by rw [hrt, hrk]; exact hm⟩
+  have hn : NANOS = 1000000000 := rfl
+  have : 1 * NANOS ≤ rr.ttl * NANOS := Nat.mul_le_mul_right _ hpos
+  omega
+
+/-- C05, liveness: a stored record with at least one full second left is returned by every
+    lookup whose query type it matches (no invariant needed: the lookup is keyed the same way). -/
+theorem C05_live_is_returned (c : PCache) (name : Name) (qtype now : Nat) (rt : Nat)
+    (fs : List FieldVal) (e : Nat) (hst : storedExpiry c name rt fs = some e) (hlive : now + NANOS ≤ e)
+    (hm : rtypeMatches rt qtype = true) :
+    ∃ rr ∈ (cacheGet c name qtype now).2, rr.rtype = rt ∧ rr.fields = fs ∧ rr.name = name := by
+  rw [storedExpiry_eq] at hst
+  have hmem := lookupTuple_some_mem hst
+  refine ⟨mkRR name now (⟨rt, fs⟩, e), ?_, rfl, rfl, rfl⟩
+  rw [mem_cacheGet_iff]
+  refine ⟨mem_cacheGetUnchecked_of hm ?_, ?_⟩
+  · rw [toRRs_eq_map]; exact List.mem_map.mpr ⟨_, hmem, rfl⟩
+  · simp only [mkRR]
+    have hn : NANOS = 1000000000 := rfl
+    have hu : U32_MAX = 4294967295 := rfl
+    have : 1 ≤ (e - now) / NANOS := by
+      rw [Nat.le_div_iff_mul_le (by omega)]; omega
+    rw [hu]; omega
+
+/-- No (type, data) is returned twice by one lookup. -/
+theorem C05_get_nodup (c : PCache) (name : Name) (qtype now : Nat) (h : Inv c) :
+    ((cacheGet c name qtype now).2.map (fun rr => (rr.rtype, rr.fields))).Nodup ∧
+    ((cacheGetUnchecked c name qtype now).2.map (fun rr => (rr.rtype, rr.fields))).Nodup :=
+  ⟨h.cacheGet_nodup name qtype now, h.cacheGetUnchecked_nodup name qtype now⟩
+
+/-- The unchecked lookup (which may return expired records, with TTL 0) still never overstates the
+    time left and only returns stored records of the right name and type. -/
+theorem C05_unchecked_ttl_le (c : PCache) (name : Name) (qtype now : Nat) (h : Inv c) :
+    ∀ rr ∈ (cacheGetUnchecked c name qtype now).2,
+      ∃ e, storedExpiry c name rr.rtype rr.fields = some e ∧ rr.ttl * NANOS ≤ e - now ∧
+        rr.name = name ∧ rtypeMatches rr.rtype qtype = true := by
+  intro rr hu
+  obtain ⟨rk, hm, hr⟩ := (mem_cacheGetUnchecked_iff h name qtype now rr).mp hu
+  obtain ⟨t, ht, hrt, hfs, hname, hle⟩ := toRRs_ttl_le name now _ rr hr
+  have hrk : t.1.rtype = rk := h.tuplesAt_rtype name rk t ht
+  refine ⟨t.2, ?_, hle, hname, by rw [hrt, hrk]; exact hm⟩
+  rw [storedExpiry_eq, hrt, hfs, hrk]
+  apply lookupTuple_of_mem (h.tuplesAt_nodup name rk)
+  have : ((⟨rk, t.1.fields⟩ : CRec), t.2) = t := by
+    obtain ⟨⟨a, b⟩, e⟩ := t; simp only at hrk; subst hrk; rfl
+  rw [this]; exact ht
+
+/-- Lookups never change what is stored (values, expiries, the expiry queue, the counters):
+    they only refresh `last_read` and its queue priority. -/
+theorem C05_get_preserves_store (c : PCache) (name : Name) (qtype now : Nat) :
+    (∀ k rt fs, storedExpiry (cacheGet c name qtype now).1 k rt fs = storedExpiry c k rt fs) ∧
+    (∀ k rt fs, storedExpiry (cacheGetUnchecked c name qtype now).1 k rt fs = storedExpiry c k rt fs) ∧
+    (∀ k rk, tuplesAt (cacheGet c name qtype now).1 k rk = tuplesAt c k rk) ∧
+    (cacheGet c name qtype now).1.expiryPriority = c.expiryPriority ∧
+    (cacheGet c name qtype now).1.currentSize = c.currentSize := by
+  have ht := cacheGetUnchecked_touched c name qtype now
+  exact ⟨fun k rt fs => ht.storedExpiry k rt fs, fun k rt fs => ht.storedExpiry k rt fs,
+    fun k rk => ht.tuplesAt k rk, ht.rest.1, ht.rest.2.1⟩
+
+/-! ## Pruning and whole histories -/
+
+/-- `prune` and the stored expiries: a key is still stored afterwards iff its partition survived
+    and its expiry is in the future, and then with the same expiry — pruning never alters a lifetime. -/
+theorem C05_prune_stored (c c' : PCache) (now : Nat) (r : Bool × Nat × Nat × Nat) (h : Inv c)
+    (hp : c.prune now = some (c', r)) (k : Name) (rt : Nat) (fs : List FieldVal) :
+    storedExpiry c' k rt fs =
+      if k ∈ AL.keys c'.partitions then
+        (storedExpiry c k rt fs).bind (fun e => if e > now then some e else none)
+      else none :=
+  h.storedExpiry_prune hp k rt fs
+
+/-- The abstract map (`CSpec.State.entries`) after an insertion: the inserted key maps to
+    `now + ttl` seconds (TTL 0: nothing changes), every other key is unchanged — so the abstract
+    entry of a key is always the expiry of its LAST insertion. -/
+theorem C05_abs_insert (m : List (CSpec.Key × Nat)) (rr : RR) (now : Nat) (k : CSpec.Key) :
+    absFind (absInsert m rr now) k =
+      if rr.ttl > 0 ∧ k = ⟨rr.name, rr.rtype, rr.fields⟩ then some (now + rr.ttl * NANOS) else absFind m k :=
+  absFind_insert m rr now k
+
+/-- C05, history level: run any history from the empty cache, concretely (`run`) and abstractly
+    (`runBoth … .2`: insertions overwrite the key's entry with `now + ttl`, lookups change nothing,
+    a prune only drops the entries the cache dropped).  Then for every key the cache stores exactly
+    the abstract entry: the expiry of the key's last insertion, unless pruned since. -/
+theorem C05_history (d : Nat) (ops : List CacheOp) (k : CSpec.Key) :
+    (runBoth (PCache.new d) [] ops).1 = run d ops ∧
+    storedExpiry (run d ops) k.name k.rtype k.fields = absFind (runBoth (PCache.new d) [] ops).2 k := by
+  have h1 := runBoth_fst (PCache.new d) [] ops
+  refine ⟨h1, ?_⟩
+  have := (Sim.new d).runBoth (Inv.new d) ops k
+  rw [h1] at this
+  exact this
+
+/-- … in particular every record served along a history is served within `ttl` seconds of its
+    last insertion (never-stale at history level). -/
+theorem C05_history_never_stale (d : Nat) (ops : List CacheOp) (name : Name) (qtype now : Nat) :
+    ∀ rr ∈ (cacheGet (run d ops) name qtype now).2,
+      ∃ e, absFind (runBoth (PCache.new d) [] ops).2 ⟨name, rr.rtype, rr.fields⟩ = some e ∧ now < e ∧
+        rr.ttl * NANOS ≤ e - now := by
+  intro rr hrr
+  obtain ⟨e, hst, hlt, _, hle, _, _⟩ :=
+    C05_never_stale (run d ops) name qtype now ((Inv.new d).runFrom ops) rr hrr
+  refine ⟨e, ?_, hlt, hle⟩
+  rw [← (C05_history d ops ⟨name, rr.rtype, rr.fields⟩).2]; exact hst
+
+/-! ## Non-vacuity on a concrete state -/
+
+/-- `a.` A 1.2.3.4-like record (empty field list stands for the data) with TTL 5 s inserted at
+    t = 0: served at 3.5 s with TTL 1, not served at 4.5 s (less than a second left), and a
+    re-insertion at 2 s moves the expiry to 7 s without duplicating. -/
+example :
+    let rr : RR := ⟨⟨[[97], []], 3⟩, 1, [], 1, 5⟩
+    let c := sharedInsert (PCache.new 10) rr 0
+    storedExpiry c rr.name 1 [] = some (5 * NANOS) ∧
+    ((cacheGet c rr.name 1 (3 * NANOS + NANOS / 2)).2.map (·.ttl)) = [1] ∧
+    (cacheGet c rr.name 1 (4 * NANOS + NANOS / 2)).2 = [] ∧
+    storedExpiry (sharedInsert c rr (2 * NANOS)) rr.name 1 [] = some (7 * NANOS) ∧
+    (sharedInsert c rr (2 * NANOS)).currentSize = 1 := by
+  decide
+
+/-- a history with a re-insertion, a lookup and a prune at t = 8 s: the abstract map ends with the
+    second record only (the first expired at 7 s and was dropped by the prune) -/
+example :
+    let a : RR := ⟨⟨[[97], []], 3⟩, 1, [], 1, 5⟩
+    let b : RR := ⟨⟨[[98], []], 3⟩, 1, [], 1, 60⟩
+    let ops : List CacheOp := [.insert a 0, .insert b NANOS, .insert a (2 * NANOS), .get a.name 1 (3 * NANOS),
+      .prune (8 * NANOS)]
+    (runBoth (PCache.new 10) [] ops).2 = [(⟨b.name, 1, []⟩, 61 * NANOS)] ∧
+    storedExpiry (run 10 ops) b.name 1 [] = some (61 * NANOS) ∧
+    storedExpiry (run 10 ops) a.name 1 [] = none := by
+  decide
 
 end Resolved
